@@ -216,6 +216,7 @@ def _rot_seq(x, k):
 JUDGED_KEYS = {
     "face": ["kind", "id", "bucket", "neg", "cneg", "czero", "d", "g", "t", "cx"],
     "orbit": ["kind", "id", "bucket", "neg", "shift_d", "shift_hi", "rot", "subs"],
+    "f32": ["kind", "id", "raised", "neg", "q", "qd"],
     "mesh": ["kind", "id", "bucket", "neg", "tot_d", "tot_hi", "tot_g", "tot_t", "tot_fn", "renum", "cached"],
 }
 
@@ -397,6 +398,8 @@ def run(ctx):
     tiny_recs = _flatten(pmap(X.tiny_chunk, [{"faces": c, "rots": rotseq, "Ms": Ms, "targets": targets} for c in _chunks(tiny, 10)]))
     prov_recs = _flatten(pmap(X.prov_chunk, [{"faces": c} for c in _chunks(prov_sel, 300)]))
     face_recs = face_recs + tiny_recs + prov_recs
+    f32_sel = list(prov_sel[: 3000 if thorough else 600])
+    f32_recs = _flatten(pmap(X.f32_chunk, [{"faces": c} for c in _chunks(f32_sel, 150)]))
     cache_meshes = [
         {"id": catalog.eid(e), "nodes": e["nodes"], "faces": e["faces"]}
         for e in catalog.entries(name=["cuboctahedron", "truncated_cube"], rot=[0, 7], cut=[0, 3])
@@ -410,7 +413,7 @@ def run(ctx):
     ctx.note("replay_wall_s", round(time.time() - t0, 1))
     # ---- 5. judge
     errors = [r for r in face_recs + orbit_recs + mesh_recs if "error" in r]
-    good = [r for r in face_recs + orbit_recs + mesh_recs if "error" not in r]
+    good = [r for r in face_recs + orbit_recs + mesh_recs if "error" not in r] + f32_recs
     failed = judge_records(ctx, good, w_big)
     tfailed = judge_traces(ctx, traces, rules, w_small)
     # ---- 6. verdicts
@@ -425,12 +428,16 @@ def run(ctx):
             ctx.count(1, r["id"] if r["n"] >= 3 else None)
         elif r["kind"] == "orbit":
             ctx.count(1 + 24 + r["n"], "orbit:" + r["id"])
+        elif r["kind"] == "f32":
+            ctx.count(1, "f32:" + r["id"])
         else:
             ctx.count(1, "mesh:" + r["id"])
     for (kind, rid), (clauses, cart) in sorted(failed.items()):
         r = rec_by_id[(kind, rid)]
         for clause in clauses:
             sig = {"kind": kind, "bucket": r["bucket"]}
+            if kind == "f32":
+                sig["source"] = r["source"]
             if clause == "CartesianInputAgrees":
                 sig = {"cart": cart}
             if kind == "face" and rid in by_id:
@@ -438,6 +445,8 @@ def run(ctx):
             elif kind == "face":
                 base = rid.split(":", 1)[1].split("|")[0]
                 rp = {"kind": "derived", "id": rid, "face": by_id.get(base), "dirs": r.get("dirs"), "M": r.get("M"), "to": r.get("to")}
+            elif kind == "f32":
+                rp = {"kind": "f32", "faces": [by_id[rid.split(":", 1)[1]]]}
             elif kind == "orbit":
                 rp = {"kind": "orbit", "orbit": orb_by_id[rid]}
             else:
@@ -483,6 +492,7 @@ def run(ctx):
             w["n"] += 1
     ctx.note("tiny_faces_worst_q(1e-13,1e-6)", tw)
     ctx.note("provenance_records", len(prov_recs))
+    ctx.note("float32_source_records", len(f32_recs))
     for r in face_recs[:1] + orbit_recs[:1] + mesh_recs[:1]:
         ctx.sample({k: v for k, v in r.items() if k != "subs"})
     if traces:
@@ -514,6 +524,8 @@ def replay(path):
             rec = X.mesh_case(rp["mesh"])
         elif rp["kind"] == "history":
             rec = X.history_case(rp["item"])
+        elif rp["kind"] == "f32":
+            rec = X.f32_chunk({"faces": rp["faces"]})
         elif rp["kind"] == "derived" and rp.get("face") and rp["id"].split(":")[0] in ("both", "xyz"):
             rec = [x for x in X.prov_chunk({"faces": [rp["face"]]}) if x.get("id") == rp["id"]]
         else:
